@@ -556,7 +556,7 @@ def _content_eq_inner(c1, c2, ctx):
             elif isinstance(a, SymByte) and isinstance(b, SymByte):
                 conds.append(a.bv == b.bv)
             elif isinstance(a, Atom) and isinstance(b, Atom) and a.kind == b.kind and a.kind in ("hex", "b64") \
-                    and (a.a, a.b) == (b.a, b.b) and a.a is None:
+                    and (a.a, a.b) == (b.a, b.b):
                 e = digest_eq(a.payload, b.payload, ctx)
                 if e is False:
                     return False
@@ -576,7 +576,7 @@ def _content_eq_inner(c1, c2, ctx):
             return z3.And(*conds) if len(conds) > 1 else conds[0]
     # concrete digest text versus the digest atom of symbolic content (ideal hash)
     for x, y in ((c1, c2), (c2, c1)):
-        if len(y.segs) == 1 and isinstance(y.segs[0], Atom) and y.segs[0].kind in ("hex", "b64") and y.segs[0].a is None \
+        if len(y.segs) == 1 and isinstance(y.segs[0], Atom) and y.segs[0].kind in ("hex", "b64") \
                 and y.segs[0].payload.raw is None and all(isinstance(t, (bytes, SymByte)) for t in x.segs):
             return _text_vs_digest_atom(x, y.segs[0], ctx)
     # expand bytes vs symbytes of differing segmentation
@@ -602,6 +602,8 @@ def _text_vs_digest_atom(text, atom, ctx):
         if algo != d.algo:
             continue
         enc = raw.hex().encode() if atom.kind == "hex" else base64.b64encode(raw)
+        if atom.a is not None:
+            enc = enc[atom.a:atom.b]
         te = _bytewise_eq(text, SBytes.of(enc))
         if te is False or te is None:
             continue
